@@ -20,7 +20,10 @@ def drive(ctx, groups, extras=True, name="watch"):
     inp = os.path.join(ctx.scratch, name + "-in.json")
     json.dump(groups, open(inp, "w"))
     out = os.path.join(ctx.scratch, name + "-out")
-    vlib.go_run(ctx, binary, "TestWatch", {"VERIF_IN": inp, "VERIF_OUT": out, "VERIF_EXTRAS": "1" if extras else "0"},
+    _, mint = vlib.go_run(ctx, binary, "TestMint", {})
+    m = re.search(r"MINT ([0-9a-f]{32})", mint)
+    vlib.go_run(ctx, binary, "TestWatch", {"VERIF_IN": inp, "VERIF_OUT": out, "VERIF_EXTRAS": "1" if extras else "0",
+                                            "VERIF_FOREIGN_BM": m.group(1) if m else ""},
                 timeout=2400)
     return ["%s.%d.ndjson" % (out, i) for i in range(len(groups))]
 
